@@ -226,6 +226,8 @@ type Event struct {
 	Chunks  [][]byte // get / getm data
 	Bools   []bool   // has / hasm
 	GCDone  bool     // gcevict: done flag
+	// gcevict: target and capacity of the run (gcTarget() is evaluated once, when the run starts)
+	GCTarget, GCCapacity uint64
 	GCCount uint64   // gcevict: collected count
 	Visited [][]byte
 	// gcevict: the pyramid script in force (root address string -> pyramid; missing = unknown file)
@@ -274,6 +276,8 @@ type Runner struct {
 	logger   logging.Logger
 
 	gcActive  bool
+	gcTarget  uint64
+	gcCap     uint64
 	gcRelease chan struct{}
 	gcDone    chan gcResult
 	gcRestore func()
@@ -662,6 +666,7 @@ func (rn *Runner) exec(op []string, ev *Event) string {
 		rn.gcRelease = make(chan struct{})
 		rn.gcDone = make(chan gcResult, 1)
 		rn.ci.Visited = nil
+		rn.gcTarget, rn.gcCap = db.VerifGCTarget(), rn.capacity
 		release := rn.gcRelease
 		rn.gcRestore = localstore.VerifSetHookGCIteratorDone(func() {
 			close(reached)
@@ -693,6 +698,7 @@ func (rn *Runner) exec(op []string, ev *Event) string {
 			return "err"
 		}
 		ev.GCDone, ev.GCCount, ev.Visited = r.done, r.collected, rn.ci.Visited
+		ev.GCTarget, ev.GCCapacity = rn.gcTarget, rn.gcCap
 		ev.Pyramids = map[string][]Cid{}
 		for k, v := range rn.ci.Known {
 			ev.Pyramids[k] = append([]Cid(nil), v...)
